@@ -1183,6 +1183,233 @@ Proof.
   intros [->|(s & s' & -> & [->| ->] & _)] H; [reflexivity|discriminate|discriminate].
 Qed.
 
+(* ------------------------------------------------------------------ containers stay containers *)
+(* a container token is only ever rewritten into a container token, at the same index *)
+Definition cext (t t' : ttape) : Prop :=
+  forall i x, nth_error t i = Some x -> cont_end x <> None ->
+  exists y, nth_error t' i = Some y /\ cont_end y <> None.
+
+Lemma cext_refl t : cext t t.
+Proof. intros i x Hx Hc. eauto. Qed.
+
+Lemma cext_trans a b c : cext a b -> cext b c -> cext a c.
+Proof. intros H1 H2 i x Hx Hc. destruct (H1 i x Hx Hc) as (y & Hy & Hcy). exact (H2 i y Hy Hcy). Qed.
+
+Lemma cext_push t x : cext t (tpush t x).
+Proof.
+  intros i z Hz Hc. exists z. split; [|exact Hc]. unfold tpush. rewrite nth_error_app_l; [exact Hz|].
+  apply nth_error_Some. congruence.
+Qed.
+
+Lemma cext_tset_cont t q x t' : tset t q x = Some t' -> cont_end x <> None -> cext t t'.
+Proof.
+  intros H Hx i z Hz Hc. destruct (tset_spec _ _ _ _ H) as [L N].
+  destruct (Nat.eq_dec i q) as [->|Hne]; [|exists z; rewrite N by exact Hne; auto].
+  exists x. split; [|exact Hx].
+  assert (Hq : q < length t) by (apply nth_error_Some; congruence).
+  clear -H Hq. revert q t' H Hq. induction t as [|a t IH]; intros q t' H Hq; [cbn in Hq; lia|].
+  destruct q as [|q]; cbn [tset] in H.
+  - injection H as <-. reflexivity.
+  - destruct (tset t q x) as [r'|] eqn:E; [|discriminate]. injection H as <-. cbn [nth_error length] in *. apply (IH q r' E). lia.
+Qed.
+
+Lemma cext_tset_plain t q x t' : tset t q x = Some t' ->
+  (forall z, nth_error t q = Some z -> cont_end z = None) -> cext t t'.
+Proof.
+  intros H Hq i z Hz Hc. destruct (tset_spec _ _ _ _ H) as [L N].
+  destruct (Nat.eq_dec i q) as [->|Hne]; [|exists z; rewrite N by exact Hne; auto].
+  rewrite (Hq z Hz) in Hc. congruence.
+Qed.
+
+Lemma cext_insert t x t' : tinsert_before_last t x = Some t' ->
+  (forall z, tlast t = Some z -> cont_end z = None) -> cext t t'.
+Proof.
+  unfold tinsert_before_last, tlast. destruct (length t) as [|n] eqn:L; [discriminate|]. intros H Hl. injection H as <-.
+  cbn [Nat.sub] in Hl. rewrite Nat.sub_0_r in Hl.
+  intros i z Hz Hc. assert (Hi : i < S n) by (rewrite <- L; apply nth_error_Some; congruence).
+  destruct (Nat.eq_dec i n) as [->|Hne]; [rewrite (Hl z Hz) in Hc; congruence|].
+  exists z. split; [|exact Hc]. rewrite nth_error_app_l by (rewrite firstn_length; lia).
+  rewrite nth_error_firstn_lt by lia. exact Hz.
+Qed.
+
+Lemma parse_param_cext d p st t (initial : bool) s' :
+  parse_param d p st t initial = Next s' -> cext t (ptape s').
+Proof.
+  unfold parse_param. intros H. rewrite match_o91 in H.
+  destruct (nth_error d 1) as [c1|]; [|discriminate].
+  destruct (N.eqb c1 91); [|discriminate].
+  assert (exists t2 p2, (if initial
+        then match length t with
+             | 0 => None
+             | S ind => match tset t ind (TObject p false) with Some t' => Some (t', ind) | None => None end
+             end
+        else Some (t, p)) = Some (t2, p2) /\ cext t t2) as (t2 & p2 & E & Hx).
+  { destruct initial.
+    - destruct (length t) as [|ind] eqn:L; [discriminate|].
+      destruct (tset t ind (TObject p false)) as [t'|] eqn:Et; [|discriminate].
+      exists t', ind. split; [reflexivity|]. eapply cext_tset_cont; [exact Et|discriminate].
+    - exists t, p. split; [reflexivity|apply cext_refl]. }
+  rewrite E in H. clear E.
+  crush_H H; injection H as <-; cbn [ptape];
+    repeat (eapply cext_trans; [|apply cext_push]); exact Hx.
+Qed.
+
+Lemma keep_mixed_cext m d p st t (initial : bool) s' :
+  keep_mixed m (parse_param d p st t initial) = Next s' -> cext t (ptape s').
+Proof.
+  destruct (parse_param d p st t initial) as [s1| | |] eqn:E; cbn [keep_mixed]; try discriminate.
+  intros H. injection H as <-. cbn [ptape]. eapply parse_param_cext; eauto.
+Qed.
+
+Lemma scalar_arm_cext (site : N) c d m p t st' s' :
+  match scalar_step d c with
+  | Ok (tok, d') => Next (mkps d' st' m p (tpush t tok))
+  | Err e => Fail e
+  | _ => Crash site
+  end = Next s' -> cext t (ptape s').
+Proof.
+  destruct (scalar_step d c) as [[tok d']| | | |]; try discriminate.
+  intros H. injection H as <-. apply cext_push.
+Qed.
+
+Lemma flag_cext t1 p (m : bool) :
+  cext t1 (if m then
+            match tget t1 p with
+            | Some (TArray e _) => match tset t1 p (TArray e true) with Some x => x | None => t1 end
+            | Some (TObject e _) => match tset t1 p (TObject e true) with Some x => x | None => t1 end
+            | _ => t1
+            end
+          else t1).
+Proof.
+  destruct m; [|apply cext_refl].
+  destruct (tget t1 p) as [x|] eqn:Eg; [|apply cext_refl].
+  destruct x; try apply cext_refl.
+  - destruct (tset t1 p (TArray e true)) eqn:Et; [|apply cext_refl]. eapply cext_tset_cont; [exact Et|discriminate].
+  - destruct (tset t1 p (TObject e true)) eqn:Et; [|apply cext_refl]. eapply cext_tset_cont; [exact Et|discriminate].
+Qed.
+
+Ltac cext_fin :=
+  let H := fresh "H" in intros H;
+  first [ discriminate H
+        | injection H as <-; cbn [ptape];
+          first [ apply cext_refl | apply cext_push | assumption ] ].
+
+Theorem step_cext s s' : Inv s -> step s = Next s' -> cext (ptape s) (ptape s').
+Proof.
+  destruct s as [d st m p t]. unfold Inv. cbn [pst_ pparent ptape]. intros HI.
+  unfold step. cbv zeta. cbn [pdata pst_ pmixed pparent ptape].
+  destruct (skip_ws_t d) as [d0|].
+  2:{ destruct st; try discriminate. destruct (Nat.eqb p 0); [discriminate|].
+      destruct (Nat.eqb (slot t p) 0); [|discriminate]. destruct (tset _ _ _); discriminate. }
+  destruct d0 as [|c d1]; [discriminate|].
+  destruct st; cbn [inv] in HI.
+  - (* Key *)
+    destruct (beq c 125 || beq c 93).
+    { destruct (restore t (slot t p)) as [st' m'].
+      destruct (Nat.eqb p 0 && Nat.eqb (slot t p) 0) eqn:Ez; [cext_fin|].
+      destruct (tset (tpush t (TEnd p)) p (TObject (length t) m)) as [t'|] eqn:Et; [|discriminate].
+      intros H. injection H as <-. cbn [ptape].
+      eapply cext_trans; [apply cext_push|]. eapply cext_tset_cont; [exact Et|discriminate]. }
+    destruct (beq c 123).
+    { destruct (skip_ws_t d1) as [d2|]; [|discriminate]. rewrite match_b125.
+      assert (G : forall X, match tlast t with
+                   | Some (TUnquoted h) => match tset t (length t - 1) (THeader h) with
+                                           | Some t' => Next (mkps d2 SOpen m p (tpush t' (TArray 0 false)))
+                                           | None => Crash 3023 end
+                   | _ => Fail E_TextErr end = Next X -> cext t (ptape X)).
+      { intros X. destruct (tlast t) as [[]|] eqn:El; try discriminate.
+        destruct (tset t (length t - 1) (THeader s)) as [t'|] eqn:Et; [|discriminate].
+        intros H. injection H as <-. cbn [ptape]. eapply cext_trans; [|apply cext_push].
+        eapply cext_tset_plain; [exact Et|]. unfold tlast in El. intros z Hz. rewrite El in Hz. injection Hz as <-. reflexivity. }
+      destruct d2 as [|c2 d3]; [apply G|]. destruct (N.eqb c2 125); [cext_fin|apply G]. }
+    destruct (beq c 91); [apply keep_mixed_cext|]. apply scalar_arm_cext.
+  - (* Kvs *)
+    destruct HI as (HC & t0 & x0 & -> & Hx0).
+    destruct (op2 (c :: d1)) as [[[] n]|]; try cext_fin; try (destruct m; cext_fin).
+    destruct (_ && _); [cext_fin|]. destruct (beq c 123); [cext_fin|].
+    destruct (tinsert_before_last (t0 ++ [x0]) TMixedContainer) as [t'|] eqn:Ei; [|discriminate].
+    intros H. injection H as <-. cbn [ptape]. eapply cext_insert; [exact Ei|].
+    intros z Hz. rewrite tlast_snoc in Hz. injection Hz as <-. apply plain_not_cont. exact Hx0.
+  - (* ObjVal *)
+    destruct (beq c 123); [cext_fin|]. destruct (beq c 125); [discriminate|]. apply scalar_arm_cext.
+  - (* ArrVal *)
+    destruct HI as [HC HN].
+    destruct (beq c 123); [cext_fin|].
+    destruct (beq c 125).
+    { assert (G : forall grand (is_array : bool) st' m' X,
+                match tset t p (if is_array then TArray (length t) m else TObject (length t) m) with
+                | Some t' => Next (mkps d1 st' m' grand (tpush t' (TEnd p)))
+                | None => Crash 3036 end = Next X -> cext t (ptape X)).
+      { intros grand is_array st' m' X.
+        destruct (tset t p _) as [t'|] eqn:Et; [|discriminate]. intros H. injection H as <-. cbn [ptape].
+        eapply cext_trans; [|apply cext_push]. eapply cext_tset_cont; [exact Et|]. destruct is_array; discriminate. }
+      destruct (tget t p) as [x|]; [destruct x|]; cbv iota beta;
+        (match goal with |- context [restore t ?g] => destruct (restore t g) as [st' m'] end;
+         match goal with |- context [Nat.eqb p 0 && ?b] => destruct (Nat.eqb p 0 && b) eqn:Ez end; [discriminate|];
+         first [apply (G _ true)|apply (G _ false)]). }
+    destruct (beq c 34 || beq c 64); [apply scalar_arm_cext|].
+    destruct (_ || _); [|apply scalar_arm_cext].
+    assert (G : forall t' (m' : bool) X, cext t t' ->
+              match op2 (c :: d1) with
+              | Some (o, n) => Next (mkps (skipn n (c :: d1)) SArrVal m' p (tpush t' (TOperator o)))
+              | None => Fail E_TextErr end = Next X -> cext t (ptape X)).
+    { intros t' m' X Hx. destruct (op2 _) as [[o n]|]; [|discriminate]. intros H. injection H as <-. cbn [ptape].
+      eapply cext_trans; [exact Hx|apply cext_push]. }
+    destruct m; [apply G; apply cext_refl|].
+    destruct (tlast t) as [x|] eqn:El; [|discriminate]. destruct (is_scalar_tok x) eqn:Ex; [|discriminate].
+    destruct (tinsert_before_last t TMixedContainer) as [t'|] eqn:Ei; [|discriminate].
+    apply G. eapply cext_insert; [exact Ei|]. intros z Hz. rewrite El in Hz. injection Hz as <-.
+    apply plain_not_cont. apply scalar_tok_plain. exact Ex.
+  - (* Open *)
+    destruct HI as (t0 & -> & HN & HC).
+    assert (Hlen : length (t0 ++ [TArray 0 false]) = S (length t0)) by (rewrite app_length; cbn [length]; lia).
+    destruct (beq c 125).
+    { rewrite Hlen. destruct (restore _ p) as [st' m'].
+      destruct (tset _ (length t0) _) as [t'|] eqn:Et; [|discriminate].
+      intros H. injection H as <-. cbn [ptape]. eapply cext_trans; [|apply cext_push].
+      eapply cext_tset_cont; [exact Et|discriminate]. }
+    destruct (beq c 91); [destruct m; [discriminate|apply keep_mixed_cext]|].
+    destruct (beq c 123).
+    { destruct (skip_ws_t d1) as [d2|]; [|discriminate]. rewrite match_b125, Hlen.
+      assert (G : forall X, match tset (t0 ++ [TArray 0 false]) (length t0) (TArray p false) with
+                   | Some t' => Next (mkps (c :: d1) SArrVal false (length t0) t')
+                   | None => Crash 3030 end = Next X -> cext (t0 ++ [TArray 0 false]) (ptape X)).
+      { intros X. destruct (tset _ _ _) as [t'|] eqn:Et; [|discriminate]. intros H. injection H as <-. cbn [ptape].
+        eapply cext_tset_cont; [exact Et|discriminate]. }
+      destruct d2 as [|c2 d3]; [apply G|]. destruct (N.eqb c2 125); [cext_fin|apply G]. }
+    destruct (scalar_step (c :: d1) c) as [[tok d']| | | |]; try discriminate.
+    set (t1 := tpush (t0 ++ [TArray 0 false]) tok).
+    pose proof (flag_cext t1 p m) as Hx2.
+    match goal with |- context [Nat.ltb (length ?T) 2] => set (t2 := T) in * end.
+    assert (Hx1 : cext (t0 ++ [TArray 0 false]) t2) by (eapply cext_trans; [apply cext_push|exact Hx2]).
+    destruct (skip_ws_t d') as [[|c2 d3]|]; try discriminate.
+    destruct (Nat.ltb (length t2) 2); [discriminate|].
+    destruct (beq c2 61 || beq c2 62 || beq c2 60).
+    + destruct (tset t2 (length t2 - 2) (TObject p false)) as [t3|] eqn:Et; [|discriminate].
+      intros H. injection H as <-. cbn [ptape]. eapply cext_trans; [exact Hx1|]. eapply cext_tset_cont; [exact Et|discriminate].
+    + destruct (tset t2 (length t2 - 2) (TArray p false)) as [t3|] eqn:Et; [|discriminate].
+      intros H. injection H as <-. cbn [ptape]. eapply cext_trans; [exact Hx1|]. eapply cext_tset_cont; [exact Et|discriminate].
+Qed.
+
+Lemma done_cext s F : step s = Done F -> cext (ptape s) F.
+Proof.
+  intros H. pose proof (step_done_eof _ _ H) as E0.
+  destruct s as [d st m p t]. cbn [pdata pst_ pparent ptape] in *.
+  unfold step in H. cbv zeta in H. cbn [pdata pst_ pmixed pparent ptape] in H. rewrite E0 in H.
+  destruct st; try discriminate.
+  destruct (Nat.eqb p 0); [injection H as <-; apply cext_refl|].
+  destruct (Nat.eqb (slot t p) 0); [|discriminate].
+  destruct (tset (tpush t (TEnd p)) p (TObject (length t) false)) as [t'|] eqn:Et; [|discriminate].
+  injection H as <-. eapply cext_trans; [apply cext_push|]. eapply cext_tset_cont; [exact Et|discriminate].
+Qed.
+
+Lemma runs_cext s sf F : runs s sf -> step sf = Done F -> Inv s -> cext (ptape s) F.
+Proof.
+  induction 1 as [s|s s1 s2 H1 _ IH]; intros HD HI.
+  - apply done_cext; assumption.
+  - eapply cext_trans; [apply step_cext; eassumption|]. apply IH; [exact HD|]. eapply Inv_step; eauto.
+Qed.
+
 (* ------------------------------------------------------------------ exit analysis *)
 Lemma exit_consistent s sf F t1 x x' m' tr :
   runs s sf -> step sf = Done F -> Inv s -> pst_ s = SKey -> ptape s = t1 ++ [x] -> tok_cut x' x ->
@@ -1215,14 +1442,14 @@ Proof.
       rewrite (slot_mid ta c [] p0 Hc) in Es. subst p0.
       pose proof (chainrep_top _ Ha) as C0.
       unfold tpush in Hex. rewrite <- app_assoc in Hex. cbn [app] in Hex. rewrite tset_mid in Hex. injection Hex as <-.
-      destruct (nth_error F (length ta)) as [y|] eqn:Ey; [|apply nth_error_None in Ey; lia].
+      destruct (runs_cext _ _ _ R HD HI (length ta) c (nth_error_snoc_len _ _ _) ltac:(congruence)) as (y & Ey & Hcy).
       right. exists (length ta), [], y.
       assert (Hf : firstn (length ta) F = ta).
       { apply firstn_eq_nth; [lia|]. intros i Hi.
         rewrite HE; [apply nth_error_app_l; exact Hi|lia|].
         apply is_open_chain1; [exact C0|apply cl_nil|lia]. }
       split; [exact Hpos|]. split; [rewrite Hf, HLt; cbn [length app]; replace (length ta + 1 + 0) with (S (length ta)) by lia; reflexivity|].
-      split; [rewrite Hf; reflexivity|]. split; [exact Ey|left; reflexivity].
+      split; [rewrite Hf; reflexivity|]. split; [exact Ey|]. split; [exact Hcy|left; reflexivity].
     + assert (E1 : t1 = ta ++ c :: V0 /\ x = x2).
       { change (ta ++ c :: V0 ++ [x2]) with (ta ++ (c :: V0) ++ [x2]) in EV. rewrite app_assoc in EV.
         apply app_inj_tail in EV. destruct EV as [-> ->]. split; [reflexivity|reflexivity]. }
@@ -1233,7 +1460,9 @@ Proof.
       unfold tpush in Hex. rewrite <- app_assoc in Hex. cbn [app] in Hex. rewrite tset_mid in Hex. injection Hex as <-.
       destruct (KLst (closed_last_plain _ _ _ CV)) as (y & Hy & Hr).
       assert (Hlen1 : length (ta ++ c :: V0) = length ta + 1 + length V0) by (rewrite app_length; cbn [length]; lia).
-      destruct (nth_error F (length ta)) as [yc|] eqn:Ey; [|apply nth_error_None in Ey; lia].
+      assert (Hnc : nth_error ((ta ++ c :: V0) ++ [x]) (length ta) = Some c)
+        by (rewrite <- app_assoc; apply nth_error_snoc_mid).
+      destruct (runs_cext _ _ _ R HD HI (length ta) c Hnc ltac:(congruence)) as (yc & Ey & Hcy).
       assert (Hop : forall i, i <> length ta -> is_open ((ta ++ c :: V0) ++ [x]) i = false).
       { intros i Hi. rewrite <- app_assoc. cbn [app]. apply is_open_chain1; assumption. }
       assert (Hf : firstn (length ta) F = ta).
@@ -1243,7 +1472,7 @@ Proof.
       split; [exact Hpos|]. split.
       { rewrite Hf. rewrite <- app_assoc. cbn [app]. do 2 f_equal.
         f_equal. rewrite !app_length. cbn [length]. rewrite app_length. cbn [length]. lia. }
-      split; [rewrite Hf; reflexivity|]. split; [exact Ey|].
+      split; [rewrite Hf; reflexivity|]. split; [exact Ey|]. split; [exact Hcy|].
       right. exists V0, x', y. split; [reflexivity|]. split; [|split].
       * apply firstn_eq_nth; [rewrite skipn_length; lia|]. intros j Hj. rewrite nth_skipn.
         rewrite HE; [|lia|apply Hop; lia].
@@ -1424,7 +1653,7 @@ Theorem consistent_scalars F t i x s :
   consistent_tape F t -> nth_error t i = Some x -> TextTapeWf.scalar_bytes x = Some s ->
   exists y s', nth_error F i = Some y /\ TextTapeWf.scalar_bytes y = Some s' /\ bytes_prefix s s'.
 Proof.
-  intros [Hc|(p & body & y0 & Hp & -> & Hlen & Hy0 & Hb)] Hx Hs; [eapply prefix_cut_scalars; eauto|].
+  intros [Hc|(p & body & y0 & Hp & -> & Hlen & Hy0 & Hcy0 & Hb)] Hx Hs; [eapply prefix_cut_scalars; eauto|].
   destruct (Nat.lt_ge_cases i p) as [Hlt|Hge].
   - rewrite nth_error_app_l in Hx by lia. rewrite nth_error_firstn_lt in Hx by lia.
     exists x, s. split; [exact Hx|]. split; [exact Hs|]. exists []. rewrite app_nil_r. reflexivity.
@@ -1439,3 +1668,4 @@ Proof.
       destruct (j - length body) as [|j']; [cbn in Hx; injection Hx as <-; discriminate|].
       destruct j'; discriminate.
 Qed.
+
